@@ -174,7 +174,19 @@ def c09(tier):
     return c
 
 
-CHECKS = {"C09": c09, "C19": c19, "C16": c16, "C13": c13, "C14": c14, "C15": c15, "C05": c05, "C12": c12, "C01": c01, "C02": c02, "C03": c03, "C04": c04, "C08": c08, "C10": c10}
+def c06(tier):
+    c = _topo("C06", 6, tier, 60, 1800)
+    c.rule = ("one evaluation = one history in which the XML a replica was persisted as (v3 or v2 export of a history-built state, or a corpus "
+              "2.x file) or a diff XML is damaged between writer and reader by 1-3 seeded faults (truncate, bit flip, zeroed/duplicated/swapped "
+              "blocks, attribute value replaced by boundary/garbage values, line dropped/duplicated/moved, version changed) and loaded through file "
+              "or buffer (exact size, shorter size, missing NUL) by both back-ends (process classes); oracles: 0/-1, no sanitizer report, no failed "
+              "assertion, step budget, leak check, on success WF + read-only battery (helpers, printers with every flag word, distances/memattr/"
+              "cpukind queries, XML v3/v2 and synthetic export, dup, destroy), on failure reconfigure + load; distinct_nontrivial = distinct "
+              "(canonical dump after an op, op kind) pairs; faults_fired counts each kind that was actually applied")
+    return c
+
+
+CHECKS = {"C06": c06, "C09": c09, "C19": c19, "C16": c16, "C13": c13, "C14": c14, "C15": c15, "C05": c05, "C12": c12, "C01": c01, "C02": c02, "C03": c03, "C04": c04, "C08": c08, "C10": c10}
 
 
 # ------------------------------------------------------------------------------------------------ C17 (scheduler machine)
